@@ -526,11 +526,11 @@ PROPS = {
         "suites": [("completion", 1500, 30000), ("analyze", 800, 20000)],
         "rule": "theories = tau* of seeded programs + hand-shaped implication theories (atom / #false / malformed consequents, repeated and non-variable head arguments, "
                 "reverse implications, free variables) with random input-predicate sets; Completion::completion vs Lean `completion` (incl. None), and is_tight vs `isTight`",
-        "level_text": "Partial (two of three layers proved): (1) completion_refuses - whatever completion accepts is completable (closed, implication with #false or an atom of pairwise distinct variables as "
-                      "consequent), predicates never get two heads; (2) tight_stable_iff_supported (Fages' theorem for mini-gringo with input predicates, at the level of the reference semantics): for a program that "
-                      "is_tight accepts, stable models = classical models in which every true atom of a non-input predicate is produced by a rule with a true body; tightness is exact (C11 tight_iff_acyclic) and "
-                      "the induction runs on the number of reachable predicates; tight_equilibrium_iff_supported reads it through the tau* theory (C01); non_tight_counterexample shows tightness is needed. "
-                      "(3) Not proved: that the formulas completion builds from the tau* theory say exactly 'model and supported' (CompletionTight stays stated); that layer is tied by exact-output correspondence.",
+        "level_text": "Full for the model: completion_tight - for every program that is_tight accepts (no usize overflow of the global indices) and every set of input predicates not occurring in rule heads, "
+                      "completion accepts the tau* theory and a classical interpretation over the program's signature satisfies every formula of the result iff it is a stable model of the program with its own "
+                      "input facts. Layers: completion_refuses (only completable theories are accepted, one head per predicate); tight_stable_iff_supported (Fages' theorem with inputs at the level of the reference "
+                      "semantics; tightness exact by C11; induction on the number of reachable predicates); the formula level (tau* formulas closed, split into constraints / partial definitions, grouping by head atom, "
+                      "empty definitions for predicates without rules, inputs left open, meaning of each completed definition); non_tight_counterexample shows tightness is needed.",
         "level_note": PROOF_NOTE,
         "technique": "Lean 4 proof (refusal half) + differential correspondence",
         "design_ref": "DESIGN.md 6/C04",
